@@ -10,18 +10,19 @@ TRANSFERS = ['up-path', 'up-seek', 'up-stream', 'copy', 'down-seekable', 'down-s
 
 
 def run(transfer, size, thr, chunk, io, fault_at, phase, prev=False, executor_cls=H.NonThreadedExecutor,
-        stream_faults=(), attempts=2, cfg_kw=None, provide_size=False):
+        stream_faults=(), attempts=2, cfg_kw=None, provide_size=False, fault_cls=0):
     faultable = None
     if transfer.startswith('up-'):
         kind = {'up-path': 'path', 'up-seek': 'seekable', 'up-stream': 'nonseekable'}[transfer]
         c = H.run_upload(kind, size, thr, chunk, fault_at=fault_at, fault_phase=phase, faultable=faultable, subs=2,
-                         executor_cls=executor_cls, cfg_kw=cfg_kw, known_size=provide_size)
+                         executor_cls=executor_cls, cfg_kw=cfg_kw, known_size=provide_size, fault_cls=fault_cls)
     elif transfer == 'copy':
         c = H.run_copy(size, thr, chunk, fault_at=fault_at, fault_phase=phase, faultable=faultable, subs=2,
-                       executor_cls=executor_cls, cfg_kw=cfg_kw, provide_size=provide_size)
+                       executor_cls=executor_cls, cfg_kw=cfg_kw, provide_size=provide_size, fault_cls=fault_cls)
     elif transfer == 'delete':
         c = H.Ctx()
         env = c.env = F.Env(fault_at, phase)
+        env.fault_cls = fault_cls
         c.s3 = F.FakeS3(env)
         c.cfg = H.TransferConfig(**(cfg_kw or {}))
         c.fs = F.FakeFS(env)
@@ -33,7 +34,7 @@ def run(transfer, size, thr, chunk, io, fault_at, phase, prev=False, executor_cl
         kind = transfer[len('down-'):]
         c = H.run_download(kind, size, thr, chunk, io, fault_at=fault_at, fault_phase=phase, faultable=faultable,
                            prev=prev, subs=2, executor_cls=executor_cls, stream_faults=stream_faults,
-                           attempts=attempts, cfg_kw=cfg_kw, provide_size=provide_size)
+                           attempts=attempts, cfg_kw=cfg_kw, provide_size=provide_size, fault_cls=fault_cls)
     c.transfer = transfer
     return c
 
@@ -52,11 +53,16 @@ def judge(c, transfer, size, thr, prev=False, cancelled=False, provide_size=Fals
         return out
     # ---- C03
     if env.delivered is not None:
-        if ok:
+        if ok and env.delivered[1] == 'cb.on_progress' and getattr(env, 'fault_cls', 0) >= 2 \
+                and transfer.startswith('down-'):
+            # its own class: listed in known_findings.json (F12)
+            out.append('c03: success reported although on_progress raised - an exception of a retryable type raised '
+                       'by the callback during a body read is swallowed by the download retry loop')
+        elif ok:
             out.append('c03: success reported although a fault was delivered')
         else:
             e = val
-            genuine = isinstance(e, (F.Injected, F.InjectedOS, F.RetryableInjected)) or (
+            genuine = isinstance(e, (F.Injected, F.InjectedOS, F.RetryableInjected, F.InjectedTimeout, F.InjectedConn)) or (
                 isinstance(e, H.RetriesExceededError) and isinstance(e.last_exception, F.RetryableInjected)) or (
                 cancelled and isinstance(e, H.CancelledError))
             if not genuine:
@@ -177,6 +183,15 @@ def faulted(prefix, transfer, prev, size, thr, chunk, io, fault_at, phase):
     return pick(judge(c, transfer, size, thr, prev=prev), prefix)
 
 
+def faulted_kind(prefix, transfer, prev, size, thr, chunk, io, fault_at, phase, fk):
+    """the single-fault family with the TYPE of the injected exception symbolic as well (OSError, socket.timeout
+    family, ConnectionError family): only a failing GetObject / body read may be retried - a destination write,
+    file-system operation, source read or any other request that fails with an exception of a 'retryable' type is
+    still a failure of the transfer"""
+    c = run(transfer, size, thr, chunk, io, fault_at, phase, prev=prev, fault_cls=fk)
+    return pick(judge(c, transfer, size, thr, prev=prev), prefix)
+
+
 # shapes: (name, extra preconditions)
 _UP1 = ['0 <= size < thr', '1 <= chunk <= 5 * 1024 ** 3']
 _UP2 = ['1 <= thr <= size', '5 * 1024 ** 2 <= chunk <= 5 * 1024 ** 3', 'chunk < size <= 2 * chunk']
@@ -184,6 +199,26 @@ _DN1 = ['0 <= size < thr', '1 <= io', 'size <= 2 * io', '1 <= chunk']
 _DN2 = ['1 <= thr <= size', '1 <= chunk', 'chunk < size <= 2 * chunk', 'chunk <= io']
 PARAMS = 'size: int, thr: int, chunk: int, io: int, fault_at: int, phase: int'
 BASE = ['0 <= phase <= 1', '-1 <= fault_at <= 40']
+
+
+def fault_kind_obligations(prefix, pid, quick=('down-seekable', 'down-stream', 'down-path', 'up-path')):
+    obs = []
+    fam = [('up-path', [_UP1, _UP2]), ('up-stream', [_UP1]), ('copy', [_UP2]), ('down-seekable', [_DN1, _DN2]),
+           ('down-stream', [_DN1, _DN2]), ('down-path', [_DN1, _DN2]), ('down-special', [_DN1])]
+    for transfer, shapes in fam:
+        obs.append(dict(
+            id='%s.fk-%s' % (pid, transfer), impl='faulted_kind', params=PARAMS + ', fk: int',
+            cases=[(prefix, transfer, False)], tier='quick' if transfer in quick else 'thorough',
+            pre=BASE + ['1 <= fk <= 3', 'phase == 0'] + (['io == 1'] if not transfer.startswith('down') else []),
+            splits=[sh + ['fk == %d' % k] for sh in shapes for k in (2, 3)],
+            splits_thorough=[sh + ['fk == %d' % k] for sh in shapes for k in (1, 2, 3)], timeout=(170, 900),
+            bounds='as the single-fault family, with the exception type of the fault symbolic: OSError, socket.timeout '
+                   'family, ConnectionError family (the last two are members of S3_RETRYABLE_DOWNLOAD_ERRORS; they are '
+                   'injected everywhere EXCEPT at GetObject / body reads, where a retry is legitimate)',
+            encodes=['GetObjectTask._main (scope of the retry handler)', 'ImmediatelyWriteIOGetObjectTask._handle_io',
+                     'IOWriteTask', 'Task.__call__', 'S3_RETRYABLE_DOWNLOAD_ERRORS'],
+            assumptions=['S1', 'S2', 'identity-content data', 'serial schedule (NonThreadedExecutor)']))
+    return obs
 
 
 def fault_obligations(prefix, pid, which=None, timeout=(170, 900)):
